@@ -145,8 +145,9 @@ Qed.
 Theorem style_independent ps vals k : length vals = length ps -> NoDup ps ->
   dget k (signal_kwargs ps vals []) = dget k (signal_kwargs ps [] (zip_named ps vals)).
 Proof.
-  intros Hl Hnd. rewrite !signal_kwargs_lookup. cbn [zip_named rev dget].
-  destruct ps; cbn [zip_named rev dget]; rewrite ?zip_named_all_keyword by assumption; destruct (dget k _); reflexivity.
+  intros Hl Hnd. rewrite !signal_kwargs_lookup.
+  assert (Z0 : zip_named ps [] = []) by (destruct ps; reflexivity). rewrite Z0. cbn [rev dget].
+  rewrite zip_named_all_keyword by assumption. destruct (dget k (zip_named ps vals)); reflexivity.
 Qed.
 
 (* ---- actor_run: the signals of a processor go to its own connection, whatever was created before or after ---- *)
